@@ -140,6 +140,10 @@ impl<'a> Gen<'a> {
         if self.huge_pct > 0 && self.r.chance(self.huge_pct, 100) {
             return (*self.r.pick(&["65536", "65537", "99999999999", "4294967296", "131071", "18446744073709551616"])).to_string();
         }
+        if self.r.chance(1, 40) {
+            // the 16-bit boundary from below ("values up to 65535")
+            return (*self.r.pick(&["65534", "65530", "65533", "65529", "6553", "6554", "65500", "60000", "32768", "32767", "9999", "10000"])).to_string();
+        }
         match self.r.weighted(&[3, 2, 5, 3, 6, 3, 3, 3, 2, 1, 1, 2]) {
             0 => String::new(),
             1 => "0".into(),
